@@ -13,6 +13,11 @@ Check @parsed_field_flags.
 Check @used_lifetimes_exact.
 Check @array_lens_exact.
 Check @param_used_exact.
+Check @struct_impl_headers_good.
+Check @enum_impl_header_good.
+Check @diff_enum_params_exact.
+Check @mentioned_params_declared.
+Check @diff_enum_uses_consistent.
 Print Assumptions parse_complete.
 Print Assumptions option_is_recognised.
 Print Assumptions print_parse_roundtrip.
@@ -24,3 +29,8 @@ Print Assumptions parsed_field_flags.
 Print Assumptions used_lifetimes_exact.
 Print Assumptions array_lens_exact.
 Print Assumptions param_used_exact.
+Print Assumptions struct_impl_headers_good.
+Print Assumptions enum_impl_header_good.
+Print Assumptions diff_enum_params_exact.
+Print Assumptions mentioned_params_declared.
+Print Assumptions diff_enum_uses_consistent.
